@@ -615,6 +615,12 @@ func (hp *HTTPProxy) directLocalhost(fn ProxyFunc) ProxyFunc {
 
 func (hp *HTTPProxy) isLocalhost(host string) bool {
 	host = strings.ToLower(host)
+	// "localhost." is the same name in its fully qualified form,
+	// "::1%lo" is the same address with an IPv6 zone.
+	host = strings.TrimSuffix(host, ".")
+	if i := strings.IndexByte(host, '%'); i >= 0 {
+		host = host[:i]
+	}
 
 	if slices.Contains(hp.localhost, host) {
 		return true
